@@ -102,6 +102,10 @@ def r_C01visitors(root):
     r = call("visit_repeatable_expr", v, node, [ch, operator(v, "#")])
     rep("C01.a", "visit_repeatable_expr", "(a | b)#", r[0] == "ret" and isinstance(r[1], dict) and r[1].get(".kind") == "UnorderedGroup" and len(r[1].get(".nodes", [])) == 2, "(a | b)#  becomes %s; documented an UnorderedGroup of the two alternatives" % desc(r))
     v, _c = new_visitor()
+    v, _c = new_visitor(); asg_ = exprs.asgn("plain", "x")
+    r = call("visit_repeatable_expr", v, node, [asg_, operator(v, "#")])
+    oku = r[0] == "ret" and isinstance(r[1], dict) and r[1].get(".kind") == "UnorderedGroup" and len(r[1].get(".nodes", [])) == 1 and r[1][".nodes"][0] is asg_
+    rep("C01.a", "visit_repeatable_expr", "(x=INT)#", oku or r == ("raise", "TextXSyntaxError"), "(x=INT)#  (an unordered group around one assignment: the bracket reduces to the assignment rule itself, which is a Sequence) becomes %s; documented: an UnorderedGroup whose only member is the assignment - its nodes are the assignment's right-hand side, not group members - or a TextXSyntaxError; never a group over the bare right-hand side, which parses the value and drops it" % desc(r), props_=("C01", "C02"))
     r = call("visit_repeatable_expr", v, node, [E("StrMatch", to_match="x"), operator(v, "#")])
     rep("C01.a", "visit_repeatable_expr", "'x'#", r == ("raise", "TextXSyntaxError"), "'x'#  (unordered group of something that is not a bracketed sequence) %s; documented TextXSyntaxError" % desc(r), props_=("C01", "C23"))
     for tok in ("*", "+"):
